@@ -15,7 +15,7 @@ CHECK = {
                     "C06Connector.randRead_full_witness", "C06Connector.randRead_full_partial", "C06Connector.randInt_range",
                     "C06ConnectorC15.sameKey_from_c15"],
     "lean_module": "CloakModel.Props.C06All",
-    "scenarios": ["C06", "C06mk"],
+    "scenarios": ["C06", "C06mk", "C06par"],
     "reset_ops": ["hs.oracle.reset"],
     "timeout": {"quick": 300, "thorough": 1800},
     "rule": "real handshakes in one process over in-memory connections: client DirectTLS.Handshake x {chrome, firefox, safari} and WSOverTLS.Handshake through a "
